@@ -3,6 +3,8 @@ mod c03;
 mod c05n;
 mod c02;
 mod c07;
+mod c13;
+mod simnet;
 mod c14;
 mod c18;
 mod c08;
@@ -101,7 +103,9 @@ impl Cases {
 }
 
 fn main() {
-    std::panic::set_hook(Box::new(|_| {}));
+    if std::env::var("MLV_PANIC").is_err() {
+        std::panic::set_hook(Box::new(|_| {}));
+    }
     let args: Vec<String> = std::env::args().collect();
     let cmd = args.get(1).map(|s| s.as_str()).unwrap_or("");
     let seed: u64 = arg(&args, "--seed").and_then(|s| s.parse().ok()).unwrap_or(1);
@@ -151,6 +155,10 @@ fn main() {
         "c14" => {
             let o = c14::generate(seed, scale);
             o.write(&out, "c14", "From MLV Require Import model.Bytes model.Maint model.Check14.", "c14case", "run14", shards);
+        }
+        "c13" | "c01" => {
+            let o = c13::generate(seed, scale, cmd);
+            o.write(&out, cmd, "From MLV Require Import model.Bytes model.NetModel model.Check13.", "c13case", "run13", shards);
         }
         "c18" => {
             let o = c18::generate(seed, scale);
